@@ -160,7 +160,13 @@ impl Sys {
     fn new(case: usize, proto: u32, warn_tags: &[&str]) -> Sys {
         let mut policy = World::default_policy();
         policy.filter = PolicyFilter {
-            rules: warn_tags.iter().map(|t| FilterRule::new_warn(*t)).collect(),
+            // "!tag": an error rule for the tag placed AHEAD of the others (the first matching rule decides)
+            rules: warn_tags
+                .iter()
+                .filter(|t| t.starts_with('!'))
+                .map(|t| FilterRule::new_error(&t[1..]))
+                .chain(warn_tags.iter().map(|t| FilterRule::new_warn(t.trim_start_matches('!'))))
+                .collect(),
         };
         let mut seed = [0u8; 32];
         seed[0] = (case % 251) as u8;
@@ -1161,6 +1167,10 @@ fn run(args: &Args) {
         let warn: Vec<&str> = match rng.below(12) {
             0 => vec!["policy-commitment-retry-same"],
             1 => vec!["policy-commitment-previous-revoked"],
+            // an error rule shadows a later warn rule for the same tag (a strict configuration
+            // merged with a lenient one): nothing is downgraded
+            2 => vec!["!policy-commitment-retry-same"],
+            3 => vec!["!policy-commitment-previous-revoked"],
             _ => vec![],
         };
         let warn_coq = match warn.first() {
